@@ -85,6 +85,10 @@ add("C20", "exploration",
     "exhaustive enumeration of every netlist of the C19 design x library x RAM-setting matrix with independent structural checks and recomputation of area and timing reports",
     "For every netlist the real synthesizer produces for the C19 family (3108 quick / 48512 thorough): single driver per used net, driver bookkeeping, in-range nets, arity, RAM port shapes, acyclic combinational part; area recomputed from the library (cells + FFs + RAM bits) against every field of AreaReport; critical-path depth and delay recomputed by memoised DFS over all endpoints; the reported critical path starts at a boundary and its steps are consecutive in the netlist.",
     "Trusted base: R3's structure walk and the library tables read through the public API. Relative tolerance 1e-9 on areas.")
+add("C21", "exploration",
+    "exhaustive enumeration: all 65 536 4-input truth tables x all 768 NPN transforms; all AIG programs up to K ANDs over n inputs; every CellKind alone and in ordered pairs; a synthesized design family - every sink function compared by full truth table before and after rewrite/techmap",
+    "(1) all 65 536 Tt4: npn_canonical returns a transform that maps the table to its canonical form, the form is the minimum over the 768 transforms recomputed by brute force, NpnTransform::apply equals an independent reading of the documented transform, every library pattern evaluates to its recorded table, transform_pattern with the inverse transform gives the original function; (2) every AIG of <= K ANDs over n inputs (n=3,4 K=3, n=5 K=2 quick; up to n=4 K=4 thorough) built through the real mk_and, pushed through rewrite, aig_to_cells_techmap and aig_to_cells, every sink compared by full truth table; (3) every CellKind alone and every ordered pair A->B (5302 hand-built GateModules) through aigify/rewrite/techmap; (4) 134/159 synthesized designs (arithmetic, muxes, FSMs, RAM register files) through aigify -> rewrite -> techmap, every output bit, FF D/clock/reset and RAM input pin compared by exhaustive truth table over its cone inputs. Separate cargo workspace (/verif/vmc-aig) because enabling feature `aig` in the main harness would unify it into every build.",
+    "Trusted base: the brute-force transform reading and cell truth tables in vmc-aig/crates/worker. If the feature does not compile the check reports C21:aig-feature-does-not-compile (fixed by repo commit 211a1cb). Cones with > 16 inputs would be counted as skipped (none occurred).")
 add("C24", "exploration",
     "exhaustive enumeration of all processing orders (n!) of all dependency-closed projects of up to n files from a fixed pool, built by the real CLI; outputs compared across orders",
     "Projects = all dependency-closed subsets (n <= 3 quick / 4 thorough) of a 16-item pool (packages, interface, generic module and package with several users, importers, $sv users, cross-file types, modules with warnings); each is built under ALL n! processing orders, imposed both by permuting `sources` roots and by file-name prefixes, through the real `veryl build` / `veryl check`; every .sv, .sv.map, exit code and diagnostic multiset must be independent of the order (each order confirmed in veryl's own processing log). Repeated fresh-process builds of the same project are compared byte for byte (reported as repeated_runs, not exhaustive: hash seeds cannot be enumerated).",
